@@ -55,9 +55,10 @@ class ProxyFixMiddleware:
                 scope["client"] = (client, 0)
 
             if scheme is not None:
+                scheme = scheme.lower()  # As it is in a scope, schemes are case-insensitive
                 if scope["type"] == "websocket":
                     # Proxies report the scheme of the opening request
-                    scheme = {"http": "ws", "https": "wss"}.get(scheme.lower(), scheme)
+                    scheme = {"http": "ws", "https": "wss"}.get(scheme, scheme)
                 scope["scheme"] = scheme
 
             if host is not None:
